@@ -63,6 +63,15 @@ def scenario(sim):
                 ops.append(("info-response",))
         if sim.choose(3):
             s.settle(5)
+        if sim.choose(8) == 0 and s.tc.is_active() and s.ts.is_active():
+            # a key re-exchange in the middle of the authentication phase must not reset anything
+            s.settle(5)
+            try:
+                (s.tc, s.ts)[sim.choose(2)].renegotiate_keys()
+                ops.append(("rekey",))
+                sim.probe("rekey_during_auth_phase")
+            except Exception:
+                pass
     s.settle(20)
     desc = {"weights": weights, "ops": ops[:40]}
     check(sim, s, desc)
